@@ -456,12 +456,13 @@ generated (`nextLastTodo`). -/
 def execNextLastWith (todo : Bool) : M Ctl := if todo then hostPanic else throw .invalidInstruction
 def execNextLast : M Ctl := execNextLastWith nextLastTodo
 
-/-- `Vec::with_capacity(n)` in `MStructSet` with the unchecked operand `n` panics ("capacity
-overflow") at the latest when `n` alone exceeds `isize::MAX` bytes (defect found by this check;
-for smaller huge `n` the allocation fails and the process aborts, which the model does not
-distinguish).  After the fix the capacity is bounded by `STACK_SIZE`. -/
+/-- `Vec::<(Identifier, Value)>::with_capacity(n)` in `MStructSet` with the unchecked operand `n`
+panics ("capacity overflow") when `n * size_of::<(Identifier, Value)>() > isize::MAX`; the element
+is at least 16 bytes, which is the bound used here (defect found by this check; for smaller huge `n`
+the allocation itself fails and the process aborts, which the model does not distinguish).  After
+the fix the capacity is bounded by `STACK_SIZE`. -/
 def mstructAllocWith (unbounded : Bool) (n : Nat) : M Unit :=
-  if unbounded && decide (n > isizeMax) then hostPanic else pure ()
+  if unbounded && decide (n * 16 > isizeMax) then hostPanic else pure ()
 def mstructAlloc (n : Nat) : M Unit := mstructAllocWith mstructSetCapUnbounded n
 
 /-- Add / Sub with the inner `match instruction { .. _ => unreachable!() }` -/
